@@ -38,6 +38,8 @@ type Case struct {
 	CLI       bool   `json:"cli,omitempty"`       // disk: also run `desync tar` and `desync tar -i` (needs $VERIF_DESYNC_BIN)
 	Prior     string `json:"prior,omitempty"`     // CLI: state of the catar output path before the command (see priors)
 	PriorIdx  string `json:"prior_idx,omitempty"` // CLI: state of the caidx output path before the command
+	CLIOut    string `json:"cli_out,omitempty"`   // CLI: file (output paths with a history) | stdout (output "-", stdout captured apart from stderr)
+	Fault     *Fault `json:"fault,omitempty"`     // additionally pack the tree into a destination that fails (fault_test.go)
 }
 
 // spellings of the root path handed to NewLocalFS / the CLI. The tree lives at <scratch>/p/root,
@@ -222,6 +224,7 @@ func genCase(t *rapid.T) Case {
 			c.CLI = true
 			c.Prior = rapid.SampledFrom(append([]string{"longer", "bigger"}, priors...)).Draw(t, "prior")
 			c.PriorIdx = rapid.SampledFrom(append([]string{"longer"}, priors...)).Draw(t, "prioridx")
+			c.CLIOut = rapid.SampledFrom([]string{"file", "file", "file", "stdout", "stdout"}).Draw(t, "cliout")
 		}
 	case "tar":
 		c.TarFormat = rapid.SampledFrom([]string{"pax", "gnu"}).Draw(t, "tarformat")
@@ -238,6 +241,14 @@ func genCase(t *rapid.T) Case {
 		rootKind = rapid.SampledFrom([]string{"reg", "reg", "lnk", "chr", "blk"}).Draw(t, "rootkind")
 	}
 	c.Root = genNode(t, c.Src, 0, rootKind, b, chain)
+	if c.CLI && rootKind == "dir" && rapid.IntRange(0, 2).Draw(t, "clispecial?") > 0 {
+		// a node type desync skips with a warning: the warning must not end up in the output
+		k := rapid.SampledFrom([]string{"fifo", "sock"}).Draw(t, "clispecial")
+		c.Root.Kids = append(c.Root.Kids, Spec{Name: []byte("a " + k + " to skip"), Kind: k, Perm: 0o644, MTime: 1})
+	}
+	if rapid.IntRange(0, 7).Draw(t, "fault?") == 0 {
+		c.Fault = genFault(t)
+	}
 	return c
 }
 
@@ -322,6 +333,7 @@ func run(c Case) (o hx.Outcome) {
 		want  *catar.Node
 		err   error
 		notes diskNotes
+		mk    func() desync.FilesystemReader // a fresh reader over the same source
 	)
 	switch src {
 	case "synth":
@@ -330,6 +342,7 @@ func run(c Case) (o hx.Outcome) {
 			rp = "."
 		}
 		want = tree.listing()
+		mk = func() desync.FilesystemReader { return newSynthFS(tree, rp) }
 		err = desync.Tar(context.Background(), &out, newSynthFS(tree, rp))
 		if err == nil && c.Conc > 1 {
 			// several Tar calls at once in one process (library / server use): each must produce
@@ -388,6 +401,7 @@ func run(c Case) (o hx.Outcome) {
 			}
 			defer os.Chdir(old)
 		}
+		mk = func() desync.FilesystemReader { return desync.NewLocalFS(arg, desync.LocalFSOptions{}) }
 		err = desync.Tar(context.Background(), &out, desync.NewLocalFS(arg, desync.LocalFSOptions{}))
 		if used != "canonical" {
 			// every spelling names the same directory: the archive must not depend on it
@@ -402,7 +416,7 @@ func run(c Case) (o hx.Outcome) {
 			if g, _ := catar.ValidateAll(out.Bytes(), catar.ValidateOptions{}); g != nil {
 				flags = g.Flags
 			}
-			cliTar(&o, c, dir, cwd, arg, out.Bytes(), want, flags)
+			cliTar(&o, c, dir, cwd, arg, out.Bytes(), want, flags, hasSpecial(tree))
 		}
 	case "tar":
 		format := c.TarFormat
@@ -414,6 +428,9 @@ func run(c Case) (o hx.Outcome) {
 		stream, want, terr = buildTar(tree, format, c.AddRoot, c.DotPrefix)
 		if terr != nil {
 			panic(fmt.Sprintf("harness: archive/tar refused the generated tree: %v", terr))
+		}
+		mk = func() desync.FilesystemReader {
+			return desync.NewTarReader(bytes.NewReader(stream), desync.TarReaderOptions{AddRoot: c.AddRoot})
 		}
 		err = desync.Tar(context.Background(), &out, desync.NewTarReader(bytes.NewReader(stream), desync.TarReaderOptions{AddRoot: c.AddRoot}))
 	}
@@ -483,6 +500,13 @@ func run(c Case) (o hx.Outcome) {
 	if fatal || got == nil {
 		return o
 	}
+	if c.Fault != nil && mk != nil {
+		rootGoodbye := out.Len()
+		if got.IsDir() {
+			rootGoodbye -= 16 + 24*(len(got.Children)+1)
+		}
+		faultRun(&o, *c.Fault, mk, out.Bytes(), rootGoodbye)
+	}
 	if src == "tar" && c.AddRoot { // the root is made up by desync, there is nothing to compare it with
 		want.Mode, want.UID, want.GID, want.MTimeNs, want.Xattrs = catar.S_IFDIR|0o755, 0, 0, got.MTimeNs, nil
 	}
@@ -522,7 +546,7 @@ var spec = &hx.Spec[Case]{
 	Level: "exploration",
 	Rule: "cases = (source: synthetic FilesystemReader | tree on disk via LocalFS | tar stream via TarReader; tree of depth <= 5 with dirs, files, symlinks, devices, " +
 		"fifos/sockets, xattrs, names of 1..255 arbitrary bytes, directory fan-outs from {0..9, 2^k-1, 2^k, 2^k+1} and uniform; sibling order sorted or arbitrary; " +
-		"disk: root path in 9 spellings; CLI (if built): desync tar / tar -i over an output path that is absent, holds a shorter file, a longer file or the previous output of a bigger tree); " +
+		"any source: optionally a second Tar into a destination failing after k bytes / /dev/full; disk: root path in 9 spellings; CLI (if built): desync tar / tar -i over an output path that is absent, holds a shorter file, a longer file or the previous output of a bigger tree); " +
 		"TestEnum additionally enumerates every root fan-out 0..1100 (quick) / 0..5000 (thorough); " +
 		"non-trivial = some directory has >= 3 children; distinct by (source, multiset of directory fan-outs)",
 	Assumptions: []string{
@@ -533,12 +557,15 @@ var spec = &hx.Spec[Case]{
 		"tar source: the stream is in tar(1) order (parents first, depth first); with AddRoot the made-up root entry is not compared",
 		"mtime >= 0; uid/gid <= 2^32-2; device major < 2^12, minor < 2^20; unique names per directory",
 		"disk source: the root path is handed over in nine spellings of the same directory (canonical, trailing slash(es), /., ./x, relative, //, /./, /x/../); the archive must be the same for all",
-		"CLI level (desync tar, desync tar -i over output paths with a history) only when the driver provides the freshly built CLI in $VERIF_DESYNC_BIN; a CLI run that exceeds 120 s is not judged",
+		"failing destination: a writer that accepts the first k bytes of the archive (k over the whole length, favouring the tail; short or refused failing write) or /dev/full; Tar == nil must imply that every archive byte was accepted, a failed Write must make Tar fail",
+		"CLI level (desync tar, desync tar -i over output paths with a history, and with output '-' captured from stdout apart from stderr) only when the driver provides the freshly built CLI in $VERIF_DESYNC_BIN; a CLI run that exceeds 120 s is not judged",
 	},
 	Required: []string{"concurrent-tar", "src:synth", "src:disk", "src:tar", "fanout:0", "fanout:1", "fanout:2", "fanout:3", "fanout:2^k-1", "fanout:2^k", "fanout:2^k+1",
 		"depth>=3", "namelen:255", "xattrs", "kind:lnk", "kind:chr", "kind:blk", "order:unsorted",
 		"root-spelling:non-canonical", "root-spelling:canonical", "root-spelling:slash", "root-spelling:slashdot", "root-spelling:dotslash", "root-spelling:relative",
-		"root-spelling:dslash", "root-spelling:dotmid", "root-spelling:updown", "root-spelling:slashes"},
+		"root-spelling:dslash", "root-spelling:dotmid", "root-spelling:updown", "root-spelling:slashes",
+		"tar:writer-fails", "tar:writer-fails:in-last-64KiB", "tar:writer-fails:before-last-64KiB", "tar:writer-fails:delivered", "tar:writer-fails:k=0",
+		"tar:writer-fails:in-last-100-bytes", "tar:writer-fails:in-root-goodbye", "tar:writer-fails:devfull"},
 	Gen: genCase,
 	Run: run,
 }
@@ -616,6 +643,46 @@ func TestEnum(t *testing.T) {
 		}
 		count++
 	}
+	// every fault position k of a destination that fails after k bytes, for a few small archives
+	// (under 64 KiB), and the tail region plus the 64 KiB boundary of a larger one
+	file := func(name string, size int) Spec {
+		return Spec{Name: []byte(name), Kind: "reg", Perm: 0o644, MTime: 1, Size: size, Seed: uint64(size) + 1}
+	}
+	dir := func(name string, kids ...Spec) Spec {
+		return Spec{Name: []byte(name), Kind: "dir", Perm: 0o755, MTime: 1, Kids: kids}
+	}
+	smalls := []Spec{
+		dir(""),
+		dir("", file("a", 5)),
+		dir("", file("a", 0), Spec{Name: []byte("l"), Kind: "lnk", Perm: 0o777, Target: []byte("a")}, dir("d", file("x", 33), dir("e")), Spec{Name: []byte("c"), Kind: "chr", Major: 1, Minor: 3}),
+	}
+	faults := 0
+	for _, root := range smalls {
+		L := len(catar.Encode(expand(root, true, 0).listing(), catar.EncodeOptions{}))
+		for k := hx.Shard(); k < L; k += hx.Shards() {
+			if !hx.Case(t, spec, Case{Src: "synth", Order: "given", RootPath: ".", Root: root, Fault: &Fault{Sel: "abs", Val: k, Short: k%2 == 0}}) {
+				return
+			}
+			faults++
+		}
+	}
+	big := dir("", file("big", 70000), file("b", 10), dir("d", file("x", 1)))
+	L := len(catar.Encode(expand(big, true, 0).listing(), catar.EncodeOptions{}))
+	ks := []int{0, 1, 64, 4096, L / 2, L - 65537, L - 65536, L - 65535}
+	for k := L - 300; k < L; k++ {
+		ks = append(ks, k)
+	}
+	for i, k := range ks {
+		if i%hx.Shards() != hx.Shard() {
+			continue
+		}
+		if !hx.Case(t, spec, Case{Src: "synth", Order: "given", RootPath: ".", Root: big, Fault: &Fault{Sel: "abs", Val: k, Short: i%2 == 0}}) {
+			return
+		}
+		faults++
+	}
+	hx.AddNote("enumerated_fault_positions", faults)
+	hx.Exhaustive("Tar into a destination failing after k bytes: every k of three small archives (synthetic reader), split over the shards")
 	hx.AddNote("enumerated_fanouts", count)
 	hx.Exhaustive(fmt.Sprintf("every root directory fan-out 0..%d (synthetic reader, one name scheme), split over the shards", maxN))
 }
